@@ -528,6 +528,8 @@ def native_replay(cli_pre, cli_app, docs, received, verdicts, flags=None):
         for title, beh in b.items():
             fname = {"p": "pre.md", "q": "app.md", "P": "clipre.md", "Q": "cliapp.md"}.get(title[0], "doc%d.md" % doc.d)
             files.setdefault(fname, {}).setdefault(title, {})["doc%d.md" % doc.d] = beh
+    for doc in docs[:len(per_doc)]:
+        files.setdefault("doc%d.md" % doc.d, {})        # a document without test cases of its own is a file, too
     for fname, tests in files.items():
         for title, by_doc in tests.items():
             if "detached" in by_doc.values() and len(set(by_doc.values())) > 1:
@@ -559,6 +561,8 @@ def native_replay(cli_pre, cli_app, docs, received, verdicts, flags=None):
                     fm.append("shell: %s" % os.path.join(tmp, "notashell"))
                 if fm:
                     text += "---\n" + "\n".join(fm) + "\n---\n\n"
+                if not tests:
+                    text += "Nothing to run in this document itself.\n"
             for title in sorted(tests, key=lambda t: int(t[1:])):
                 by_doc = tests[title]
                 cfg = ""
